@@ -243,6 +243,83 @@ func main() {
 			e.Strs("filterInRangeConds", conds(f, fd), "conditions under which FilterInRange keeps a fraction")
 			e.Strs("filterInRangeStmts", stmts(f, fd), "statements of List.FilterInRange (the result list must be a fresh one: docsStream reuses its fraction list for every batch)")
 		}
+		if f, err := r.Load("frac/meta_data_collector.go"); err != nil {
+			e.Missing("frac/meta_data_collector.go", err)
+		} else {
+			for _, fn := range []struct{ lean, name string }{{"collectorFilterBorders", "Filter"}, {"collectorAppendMetaBorders", "AppendMeta"}} {
+				fd := f.Func("metaDataCollector", fn.name)
+				if fd == nil {
+					e.Missing(fn.lean, fn.name+" not found")
+					continue
+				}
+				var ss []string
+				ast.Inspect(fd.Body, func(n ast.Node) bool {
+					switch x := n.(type) {
+					case *ast.IfStmt:
+						t := f.Render(x)
+						if strings.Contains(t, "MinMID") || strings.Contains(t, "MaxMID") {
+							ss = append(ss, t)
+							return false // an else-if chain is rendered as one statement
+						}
+					case *ast.AssignStmt:
+						t := f.Render(x)
+						if len(x.Lhs) == 1 && (f.Render(x.Lhs[0]) == "c.MinMID" || f.Render(x.Lhs[0]) == "c.MaxMID" || f.Render(x.Lhs[0]) == "c.DocsCounter") {
+							ss = append(ss, t)
+						}
+					}
+					return true
+				})
+				e.Strs(fn.lean, ss, "every statement of metaDataCollector."+fn.name+" that writes MinMID / MaxMID / DocsCounter (if statements rendered whole)")
+			}
+		}
+		if f, err := r.Load("frac/active_indexer.go"); err != nil {
+			e.Missing("frac/active_indexer.go", err)
+		} else if fd := f.Func("ActiveIndexer", "appendWorker"); fd == nil {
+			e.Missing("indexerFilterAndStats", "ActiveIndexer.appendWorker not found")
+		} else {
+			var ss []string
+			ast.Inspect(fd.Body, func(n ast.Node) bool {
+				switch x := n.(type) {
+				case *ast.IfStmt:
+					if strings.Contains(f.Render(x.Cond), "appendedIDs") {
+						ss = append(ss, "if "+f.Render(x.Cond))
+					}
+				case *ast.CallExpr:
+					fn := f.Render(x.Fun)
+					if strings.HasSuffix(fn, ".SetMultiple") || strings.HasSuffix(fn, "collector.Filter") || strings.HasSuffix(fn, ".UpdateStats") || strings.HasSuffix(fn, ".AppendIDs") {
+						ss = append(ss, f.Render(x))
+					}
+				}
+				return true
+			})
+			e.Strs("indexerFilterAndStats", ss, "appendWorker: SetMultiple, the duplicate test, Filter, AppendIDs, UpdateStats - source order")
+		}
+		if f, err := r.Load("fracmanager/proxy_frac.go"); err != nil {
+			e.Missing("fracmanager/proxy_frac.go", err)
+		} else {
+			for _, fn := range []struct{ lean, name string }{{"proxyInfo", "Info"}, {"proxyIsIntersecting", "IsIntersecting"}, {"proxyContains", "Contains"}, {"proxyCur", "cur"}} {
+				if fd := f.Func("proxyFrac", fn.name); fd == nil {
+					e.Missing(fn.lean, fn.name+" not found")
+				} else {
+					e.Strs(fn.lean, stmts(f, fd), "statements of proxyFrac."+fn.name)
+				}
+			}
+			// fields of proxyFrac whose type mentions frac.Info: a cached copy of the info would show up here
+			var fields []string
+			ast.Inspect(f.AST, func(n ast.Node) bool {
+				if ts, ok := n.(*ast.TypeSpec); ok && ts.Name.Name == "proxyFrac" {
+					if st, ok := ts.Type.(*ast.StructType); ok {
+						for _, fl := range st.Fields.List {
+							if strings.Contains(f.Render(fl.Type), "Info") {
+								fields = append(fields, f.Render(fl.Type))
+							}
+						}
+					}
+				}
+				return true
+			})
+			e.Strs("proxyInfoFields", fields, "fields of proxyFrac with an Info type (none: no cached copy)")
+		}
 		if f, err := r.Load("fracmanager/searcher.go"); err != nil {
 			e.Missing("fracmanager/searcher.go", err)
 		} else if fd := f.Func("Searcher", "prepareFracs"); fd == nil {
